@@ -18,6 +18,15 @@ import tempfile
 import warnings
 
 import torch
+from hypothesis import strategies as st
+
+
+def wdraw(draw, *pairs):
+    """Draw from one of the (weight, strategy) pairs; weights are respected (sampled_from over an
+    expanded index list - ``st.one_of`` would de-duplicate repeated strategies)."""
+    idx = [i for i, (w, _) in enumerate(pairs) for _ in range(w)]
+    return draw(pairs[draw(st.sampled_from(idx))][1])
+
 
 DTYPES = {
     "float32": torch.float32,
